@@ -328,6 +328,48 @@ def enum_scope(pid, tier, seed, wd, bins, out):
     out["rule"] += " enum: exhaustive over (8 insert entry points x all ordered pairs of usable ids) + detach/remove/remove_subtree/append_value/new_node, from %d seed shapes." % shapes_used
 
 # ------------------------------------------------------------------------------------------
+def printdeep(pid, tier, seed, wd, bins, out):
+    """deterministic deep shapes for the printer: long spines of last / only / non-last children with
+    multi-line payloads (many whitespace-only guide levels, many bar guides), printed from every node
+    in all four modes"""
+    def hexs(b): return b.encode().hex()
+    ops, hn = [], 0
+    for kind in ("only", "last", "first", "mixed"):
+        depth = 14 if tier == "quick" else 40
+        ops.append("hist %d" % hn); hn += 1
+        v = 1
+        ops.append("new %d" % v); handles = [0]; nh = 1; v += 1
+        spine = 0
+        for d in range(depth):
+            if kind in ("last", "mixed") and (kind == "last" or d % 3 == 0):
+                ops.append("appv %d %d" % (spine, v)); v += 1; nh += 1          # an earlier sibling
+            ops.append("appv %d %d" % (spine, v)); v += 1; child = nh; nh += 1
+            if kind in ("first", "mixed") and (kind == "first" or d % 3 == 1):
+                ops.append("appv %d %d" % (spine, v)); v += 1; nh += 1          # a later sibling
+            spine = child
+        for val in range(1, v):
+            for mode in range(4):
+                chunks = [hexs("n%d" % val), hexs("\nsecond %d" % val), "", hexs("\n\nlast") ] if val % 2 == 0 else [hexs("v%d-m%d" % (val, mode))]
+                ops.append("rend %d %d %s" % (val, mode, ",".join(chunks)))
+        ops.append("qa")
+        for hd in range(nh):
+            if hd % (1 if tier != "quick" else 3) == 0 or hd < 3:
+                for mode in range(4):
+                    ops.append("qp %d %d" % (hd, mode))
+        ops.append("end")
+    for build in ("debug", "release"):
+        r = vlib.run_ops_once(pid, wd, bins[build], build, ops, "printdeep-" + build)
+        out["evaluations"] += r["stat"].get(pid, 0)
+        for m in r["mon"]:
+            if m["prop"] == pid:
+                out["violations"].append(_viol(["deep printer shapes (%s build): %s" % (build, m["msg"][:600]), "at command [%s]" % m["cmd"]], vlib.history_ops(r["ops"], m["hist"]))); break
+        if r["diffs"] and not out["violations"]:
+            d = r["diffs"][0]
+            out["violations"].append(_viol(["deep printer shapes (%s build): model and implementation differ at [%s]" % (build, d["cmd"]), "impl : " + d["impl"][:300], "model: " + d["model"][:300]], vlib.history_ops(r["ops"], d["hist"]), nofail=True))
+    out["distinct"] += hn
+    out["summary"]["printdeep"] = "4 deep spines (only / last / first / mixed children) with multi-line multi-chunk payloads printed in 4 modes"
+
+# ------------------------------------------------------------------------------------------
 def run_extras(pid, tier, seed, wd, bins):
     out = dict(violations=[], evaluations=0, distinct=0, samples=[], summary={}, rule="")
     for e in vlib.PROPS[pid].get("extra", []):
@@ -337,6 +379,7 @@ def run_extras(pid, tier, seed, wd, bins):
         elif e == "determinism": determinism(pid, tier, seed, wd, bins, out)
         elif e == "features": features(pid, tier, seed, wd, bins, out)
         elif e == "enum": enum_scope(pid, tier, seed, wd, bins, out)
+        elif e == "printdeep": printdeep(pid, tier, seed, wd, bins, out)
         elif e == "macro":
             import vmacro
             vmacro.run(pid, tier, seed, wd, bins, out)
